@@ -166,14 +166,14 @@ def s1(run, tu):
            'stores under ordinal > 0xFFFF: %d, otherwise: %d' % (len(pair), len(single)))
 
 
-def _accepted_units(g, conds, var_keys, bits):
+def _accepted_units(g, conds, var_keys, bits, exhaustive=False):
     """set of 16-bit unit values for which every (cond node, label) holds; exact: exhaustive, or the
     reduced set {block|00, 01, FE, FF} when every constant has a low byte of 00 or FF"""
     from ..cast import absint
     from ..cast.absint import Con
     from .. import AnalysisError
     consts = [int(x['value']) for cn, _l in conds for x in cx.walk(cn.ast) if x.get('kind') == 'IntegerLiteral']
-    reduced = all((c & 0xFF) in (0x00, 0xFF) for c in consts)
+    reduced = all((c & 0xFF) in (0x00, 0xFF) for c in consts) and not exhaustive
     dom = [b << 8 | lo for b in range(256) for lo in (0x00, 0x01, 0xFE, 0xFF)] if reduced else range(65536)
     it = absint.Interp(g, {})
     acc = set()
@@ -192,7 +192,7 @@ def _accepted_units(g, conds, var_keys, bits):
     return acc, dom
 
 
-def s4(run, tu):
+def s4(run, tu, exhaustive=False):
     """the two loops of _my_PyUnicode_FromChar16 join exactly (high, low) surrogate pairs"""
     F = '_my_PyUnicode_FromChar16'
     g = cfg_of(tu, F)
@@ -216,7 +216,7 @@ def s4(run, tu):
             if not conds:
                 run.ob('S4/surrogate-pairs-joined-exactly', F, '%s: %s' % (label, which), False, tu.where(n.ast), 'no test of %s dominates the join' % (keys,))
                 continue
-            acc, dom = _accepted_units(g, conds, keys, bits)
+            acc, dom = _accepted_units(g, conds, keys, bits, exhaustive)
             wantd = {v for v in dom if v in want}
             extra = sorted(acc - wantd)
             missing = sorted(wantd - acc)
@@ -285,7 +285,7 @@ def check(run):
     s1(run, tu)
     s2(run, tu)
     s3(run, tu)
-    s4(run, tu)
+    s4(run, tu, exhaustive=(run.tier == 'thorough'))
     run.min_instances('S4', 4)
     run.min_instances('S1', 9)
     run.min_instances('S2/bound-tested-before-reading-the-unit', 2)
